@@ -4,6 +4,7 @@
 -/
 import CimbaModel.Sim.Basic
 import CimbaModel.Sim.S3Hold
+import CimbaModel.Sim.S3PInvCor
 
 namespace CimbaModel.Props.C04
 open CimbaModel CimbaModel.Sim CimbaModel.Event CimbaModel.Generated CimbaModel.KPQ
@@ -194,6 +195,110 @@ theorem cancel_wakes_waiters (w : World) (h : Nat) (hi : EvInv w.ev) :
       omega
     · exact (mem_remove.1 he).2 hek
   · intro hk; rw [evCancel_eq]; simp [hk]
+
+/-! ### WaitersInv and NoStaleInv (process / event part): an invariant of every reachable state
+
+`PInvB w` (Sim/S3PInv.lean) bundles, for the state between two dispatched events: the kernel invariant; a process has
+at most one PROCESS and one EVENT awaitable, exactly while it is suspended in `wait_process` / `wait_event` on it; a
+registered waiter (of a process, of an event) awaits it; waiters are registered only with scheduled events; every
+pending process-end / event-done wake-up is owned by the wait its process is suspended in, and there is at most one.
+It is preserved by `dispatch` for all programs, schedules and same-instant coincidences — no `ValidProgram`
+hypothesis —, hence holds in every reachable state (the proof goes through every command, every epilogue,
+`cancel_awaiteds`, the end of a process, and the wake-ups of `dispatch`). -/
+
+/-- the invariant holds before anything is registered … -/
+theorem pinv_init {w : World} (h : InitOk w) : PInvB w := h.pinv
+
+/-- … is preserved by every dispatched event … -/
+theorem pinv_dispatch {w w' : World} (hp : PInvB w) (hd : dispatch w = some w') : PInvB w' := hp.dispatch hd
+
+/-- … hence holds in every reachable state, and after `runAll` -/
+theorem pinv_reachable {w w' : World} (h : Reach w w') (hp : PInvB w) : PInvB w' := hp.reach h
+
+theorem pinv_run (fuel : Nat) (w : World) (hp : PInvB w) : PInvB (runAll fuel w) := hp.runAll fuel w
+
+/-- `WaitersInv` (I_waiters): `q ∈ (proc p).waiters` implies `PROCESS(p) ∈ (proc q).awaits`, `q` is running and suspended
+    in `wait_process p`, and nobody is listed twice; the same for event waiters, which are only registered with
+    scheduled events -/
+theorem waiters_inv {w : World} (h : PInvB w) :
+    (∀ p q, q ∈ (w.proc p).waiters →
+      Await.proc p ∈ (w.proc q).awaits ∧ (w.proc q).blocked = some (.waitProc p) ∧ (w.proc q).status = .running ∧
+      (w.proc p).waiters.Nodup) ∧
+    (∀ k l, (k, l) ∈ w.evWaiters → ∀ q ∈ l,
+      Await.event k ∈ (w.proc q).awaits ∧ (w.proc q).blocked = some (.waitEvent k) ∧ (w.proc q).status = .running ∧
+      k ∈ keys w.ev.pending ∧ l.Nodup) :=
+  ⟨h.waiters, fun k l hm q hq => h.eventWaiters k l hm q hq⟩
+
+/-- conversely a PROCESS / EVENT awaitable is only there while the process is suspended in that wait, and there is at
+    most one of each -/
+theorem awaits_match_frame {w : World} (h : PInvB w) (p : Pid) :
+    (∀ q, Await.proc q ∈ (w.proc p).awaits → (w.proc p).blocked = some (.waitProc q) ∧ procAw w p = [.proc q]) ∧
+    (∀ k, Await.event k ∈ (w.proc p).awaits → (w.proc p).blocked = some (.waitEvent k) ∧ evAw w p = [.event k]) := by
+  constructor
+  · intro q hq
+    refine ⟨(h.proc_unique hq hq).2, ?_⟩
+    rcases h.ap p with h' | ⟨q', _, h'⟩
+    · rw [mem_awaits_proc, h'] at hq; cases hq
+    · rw [mem_awaits_proc, h'] at hq
+      simp only [List.mem_singleton, Await.proc.injEq] at hq
+      rw [h', hq]
+  · intro k hk
+    refine ⟨(h.event_unique hk hk).2, ?_⟩
+    rcases h.ae p with h' | ⟨k', _, h'⟩
+    · rw [mem_awaits_event, h'] at hk; cases hk
+    · rw [mem_awaits_event, h'] at hk
+      simp only [List.mem_singleton, Await.event.injEq] at hk
+      rw [h', hk]
+
+/-- `NoStaleInv`, process-end wake-ups: a pending (aProc) event addressed to `p`, whatever signal it carries, is owned by
+    the `wait_process q` that `p` is suspended in right now; `p` is no longer on `q`'s waiter list; it is the only one -/
+theorem no_stale_process_wakeup {w : World} (h : PInvB w) {e : HTag} (he : e ∈ w.ev.pending) (ha : e.item.a = aProc) :
+    ∃ p q, e.item.b = p + 1 ∧ (w.proc p).blocked = some (.waitProc q) ∧ (w.proc p).status = .running ∧
+      Await.proc q ∈ (w.proc p).awaits ∧ p ∉ (w.proc q).waiters ∧
+      ∀ e' ∈ w.ev.pending, e'.item.a = aProc → e'.item.b = p + 1 → e' = e :=
+  h.procWake_owned he ha
+
+/-- `NoStaleInv`, event-done wake-ups: a pending (aEvent) event addressed to `p` is owned by the `wait_event k` that `p`
+    is suspended in right now; the awaited event is no longer scheduled and `p` is no longer registered with it; it is
+    the only one -/
+theorem no_stale_event_wakeup {w : World} (h : PInvB w) {e : HTag} (he : e ∈ w.ev.pending) (ha : e.item.a = aEvent) :
+    ∃ p k, e.item.b = p + 1 ∧ (w.proc p).blocked = some (.waitEvent k) ∧ (w.proc p).status = .running ∧
+      Await.event k ∈ (w.proc p).awaits ∧ p ∉ evWaitersOf w k ∧ k ∉ keys w.ev.pending ∧
+      ∀ e' ∈ w.ev.pending, e'.item.a = aEvent → e'.item.b = p + 1 → e' = e :=
+  h.eventWake_owned he ha
+
+/-- once `wait_process` / `wait_event` has returned, nothing that belonged to it can resume the process later: a process
+    that is not suspended in such a wait is on no waiter list, in no event's waiter list, has no PROCESS / EVENT awaitable,
+    and no process-end or event-done wake-up addressed to it is pending -/
+theorem returned_wait_leaves_nothing {w : World} (h : PInvB w) (p : Pid)
+    (hf : ∀ q, (w.proc p).blocked ≠ some (.waitProc q)) (hg : ∀ k, (w.proc p).blocked ≠ some (.waitEvent k)) :
+    (∀ x, p ∉ (w.proc x).waiters) ∧ (∀ k l, (k, l) ∈ w.evWaiters → p ∉ l) ∧
+    procAw w p = [] ∧ evAw w p = [] ∧
+    (∀ e ∈ w.ev.pending, e.item.a = aProc ∨ e.item.a = aEvent → e.item.b ≠ p + 1) :=
+  h.returned_clean p hf hg
+
+/-- the epilogues that establish it: `wait_process q` / `wait_event k` continued with any value withdraw the registration
+    or, if the wake-up is already pending, that wake-up -/
+theorem wait_epilogues {fr : Pid → Option Frame} {w : World} (hp : PInv noEx fr w) (p : Pid) (sig : Int) :
+    (∀ q, fr p = some (.waitProc q) →
+      PInv noEx (setFrame fr p none) (resumeFrame (w.modProc p fun y => { y with blocked := none }) p (.waitProc q) sig).1) ∧
+    (∀ k, fr p = some (.waitEvent k) →
+      PInv noEx (setFrame fr p none) (resumeFrame (w.modProc p fun y => { y with blocked := none }) p (.waitEvent k) sig).1) :=
+  ⟨fun _ hfr => hp.resume_waitProc hfr (noEx_not p) sig, fun _ hfr => hp.resume_waitEvent hfr (noEx_not p) sig⟩
+
+/- non-vacuity: a world with two processes and a pending start event satisfies `InitOk`, hence `PInvB` -/
+example : ∃ w : World, InitOk w ∧ w.ev.pending ≠ [] ∧ w.procs.size = 2 := by
+  refine ⟨pushEv { procs := #[{}, {}] } aStart 1 0 0 0, ⟨?_, fun _ => ?_, fun _ => ?_, rfl, ?_⟩, by simp, rfl⟩
+  · exact pushEv_evinv (w := { procs := #[{}, {}] }) _ _ _ _ _ (by decide) (Event.init_inv 0)
+  · unfold World.proc; simp only [pushEv_procs]
+    rename_i p
+    rcases p with _ | _ | p <;> rfl
+  · unfold World.proc; simp only [pushEv_procs]
+    rename_i p
+    rcases p with _ | _ | p <;> rfl
+  · intro e he
+    simp only [pushEv_pending, List.mem_cons, List.not_mem_nil, or_false] at he
+    subst he; decide
 
 /- non-vacuity: the initial world satisfies the kernel invariant, so the hypotheses `EvInv w.ev`, `0 ≤ d` are satisfiable,
    and a hold really arms an event there -/
